@@ -541,7 +541,10 @@ class ScriptedSim(mosaik_api_v3.Simulator):
                 if a == "po":
                     has_po = True
                     if not (self._cyc("omit_po", k, 0) >> ei & 1):
-                        data.setdefault(eid, {})[a] = f"{self.sid}.{eid}.po#{k}"
+                        # const_po: a measurement that does not change (the simulator may then hand out the very
+                        # same reply object again, see below)
+                        data.setdefault(eid, {})[a] = (f"{self.sid}.{eid}.po" if self.beh.get("const_po")
+                                                       else f"{self.sid}.{eid}.po#{k}")
                 elif a == "eo":
                     if (emit >> ei & 1) and self.sub < budget:
                         data.setdefault(eid, {})[a] = f"{self.sid}.{eid}.eo#{k}"
@@ -552,6 +555,11 @@ class ScriptedSim(mosaik_api_v3.Simulator):
         elif fut and not has_po:
             data["time"] = self.time + fut
         self.ctl.ev("get_end", self.sid, snapshot(data))
+        if self.beh.get("const_po"):
+            # an in-process simulator whose outputs did not change returns the identical dict object again
+            if getattr(self, "_last_reply", None) == data:
+                return self._last_reply
+            self._last_reply = data
         return data
 
     def finalize(self):
